@@ -448,6 +448,13 @@ Collect(p) ==
   /\ collected' = collected \cup {p}
   /\ UNCHANGED <<docs, part, req, query, phase>>
 
+(* an intermediate result over no document at all: a partition without segments, or the       *)
+(* `default()` value that seeds a fold.  It is the neutral element of the merge on both sides. *)
+CollectEmpty ==
+  /\ phase = "run"
+  /\ pool' = pool \cup {[D |-> {}, x |-> EmptySubs(req)]}
+  /\ UNCHANGED <<docs, part, req, query, phase, collected>>
+
 MergeTwo(e1, e2) ==
   /\ phase = "run" /\ e1 \in pool /\ e2 \in pool /\ e1 # e2
   /\ pool' = (pool \ {e1, e2}) \cup {[D |-> e1.D \cup e2.D, x |-> MergeSubs(req, e1.x, e2.x)]}
@@ -460,6 +467,7 @@ FinalizeStep(e) == phase = "run" /\ e \in pool /\ UNCHANGED vars
 Next == \/ \E d \in DocDomain, p \in 1..MaxParts : AddDoc(d, p)
         \/ Start
         \/ \E p \in 1..MaxParts : Collect(p)
+        \/ CollectEmpty
         \/ \E e1, e2 \in pool : MergeTwo(e1, e2)
 
 Spec == Init /\ [][Next]_vars
@@ -469,4 +477,8 @@ Spec == Init /\ [][Next]_vars
 AlgebraSound ==
   \A e \in pool : FinSubs(req, e.x) = DenReq(req, docs, e.D \cap Dq, e.D)
 Disjoint == \A e1, e2 \in pool : e1 # e2 => e1.D \cap e2.D = {}
+(* the empty intermediate result is neutral on the left and on the right *)
+EmptyNeutral ==
+  \A e \in pool : /\ MergeSubs(req, EmptySubs(req), e.x) = e.x
+                   /\ MergeSubs(req, e.x, EmptySubs(req)) = e.x
 =============================================================================
